@@ -75,7 +75,7 @@ impl Property for C15 {
     type Case = Case;
     const ID: &'static str = "C15";
     fn strategy(_tier: Tier) -> BoxedStrategy<Case> {
-        (line_strategy(), 0u8..8, 0.0f64..1.0, any::<u16>(), 0u8..6, 0.0f64..1.0, 0u8..5)
+        (line_strategy(), 0u8..8, 0.0f64..1.0, any::<u16>(), 0u8..6, 0.0f64..1.0, 0u8..8)
             .prop_map(|(pts, rclass, rfrac, rsel, mclass, mfrac, kind)| {
                 let segs: Vec<f64> = pts.windows(2).map(|w| dist(w[0], w[1])).collect();
                 let total: f64 = segs.iter().sum();
@@ -147,7 +147,7 @@ impl Property for C15 {
             }
         }
         let ctx = || format!("pts={:?} r={r} max={}", pts, c.max);
-        let kind = c.kind % 5;
+        let kind = c.kind % 8;
         // ---------------- interpolation (LineString and Line)
         if kind <= 1 {
             let ls = LineString::new(pts.iter().map(|p| co(*p)).collect());
@@ -292,13 +292,37 @@ impl Property for C15 {
                     let o = Euclidean.densify(&rc, c.max);
                     Some((vec![from_ls(rc.to_polygon().exterior())], vec![from_ls(o.exterior())], "Rect"))
                 }
-                _ => {
+                4 => {
                     if pts.len() < 3 {
                         return None;
                     }
                     let t = Triangle::new(co(pts[0]), co(pts[1]), co(pts[2]));
                     let o = Euclidean.densify(&t, c.max);
                     Some((vec![from_ls(t.to_polygon().exterior())], vec![from_ls(o.exterior())], "Triangle"))
+                }
+                // the multi-part types: every ring / member is densified on its own, in order
+                5 => {
+                    let h = pts.len() / 2;
+                    let p = Polygon::new(LineString::new(pts[..h].iter().map(|p| co(*p)).collect()), vec![LineString::new(pts[h..].iter().map(|p| co(*p)).collect())]);
+                    let o = Euclidean.densify(&p, c.max);
+                    let rings = |q: &Polygon<f64>| -> Vec<Vec<P>> { std::iter::once(q.exterior()).chain(q.interiors().iter()).map(|l| from_ls(l)).collect() };
+                    Some((rings(&p), rings(&o), "Polygon-with-hole"))
+                }
+                6 => {
+                    let h = pts.len() / 2;
+                    let m = geo::MultiLineString::new(vec![LineString::new(pts[..h].iter().map(|p| co(*p)).collect()), LineString::new(pts[h..].iter().map(|p| co(*p)).collect())]);
+                    let o = Euclidean.densify(&m, c.max);
+                    Some((m.0.iter().map(|l| from_ls(l)).collect(), o.0.iter().map(|l| from_ls(l)).collect(), "MultiLineString"))
+                }
+                _ => {
+                    let h = pts.len() / 2;
+                    let m = geo::MultiPolygon::new(vec![
+                        Polygon::new(LineString::new(pts[..h].iter().map(|p| co(*p)).collect()), vec![]),
+                        Polygon::new(LineString::new(pts[h..].iter().map(|p| co(*p)).collect()), vec![]),
+                    ]);
+                    let o = Euclidean.densify(&m, c.max);
+                    let rings = |q: &geo::MultiPolygon<f64>| -> Vec<Vec<P>> { q.0.iter().flat_map(|p| std::iter::once(p.exterior()).chain(p.interiors().iter()).map(|l| from_ls(l)).collect::<Vec<_>>()).collect() };
+                    Some((rings(&m), rings(&o), "MultiPolygon"))
                 }
             }
         }));
@@ -314,6 +338,7 @@ impl Property for C15 {
                 return;
             }
         }
+        obs.expect(rings_in.len() == rings_out.len(), &format!("densify:{name}|ring-or-member-count"), || format!("{} -> {}; {}", rings_in.len(), rings_out.len(), ctx()));
         for (inp, out) in rings_in.iter().zip(rings_out.iter()) {
             let key = |s: &str| format!("densify:{name}|{s}");
             if inp.is_empty() {
